@@ -28,6 +28,7 @@ func checkBudget(r *Run, prog *Program, a *Anchors, pfx string) {
 	}
 	r.Analysed(parseExpr.String())
 	r.Analysed(newParser.String())
+	budgetField := budgetFieldOf(maxExprOpt)
 	// --- 2. one counter, one writer, one test
 	var cntWrites, cntReads, maxWrites, maxReads []FieldAccess
 	for _, fa := range fas {
@@ -41,7 +42,7 @@ func checkBudget(r *Run, prog *Program, a *Anchors, pfx string) {
 			default:
 				r.Check(pfx+".counter-census", fa.Fn.Name()+":ExprCnt:"+fa.Kind, prog.pos(fa.Instr.Pos()), false, "the address of the step counter escapes: it can be modified elsewhere")
 			}
-		case isFieldOf(fa, grammarPath, "parser", "maxExprCnt"):
+		case isFieldOf(fa, grammarPath, "parser", budgetField):
 			switch fa.Kind {
 			case "write":
 				maxWrites = append(maxWrites, fa)
@@ -182,7 +183,7 @@ func checkBudget(r *Run, prog *Program, a *Anchors, pfx string) {
 	if cmp != nil && cmp.Block() == counter.Blocks[0] {
 		ldM, isLd := cmp.Y.(*ssa.UnOp)
 		if isLd {
-			if fa, isFA := ldM.X.(*ssa.FieldAddr); isFA && fieldName(fa.X.Type(), fa.Field) == "maxExprCnt" {
+			if fa, isFA := ldM.X.(*ssa.FieldAddr); isFA && fieldName(fa.X.Type(), fa.Field) == budgetField {
 				if ifi, isIf := cmp.Block().Instrs[len(cmp.Block().Instrs)-1].(*ssa.If); isIf && ifi.Cond == ssa.Value(cmp) {
 					// the edge on which the counter exceeds the budget
 					exceeded := -1
@@ -314,6 +315,7 @@ func isCaptured(v ssa.Value) bool {
 }
 
 func checkBudgetTransport(r *Run, prog *Program, a *Anchors, newParser, maxExprOpt *ssa.Function, pfx string) {
+	budgetField := budgetFieldOf(maxExprOpt)
 	// WithMaxExpressions stores its parameter into options.withMaxExpressions (C18 checks all constructors; here the one field)
 	wme := prog.BexprSSA.Func("WithMaxExpressions")
 	okCtor := false
@@ -434,7 +436,7 @@ func checkBudgetTransport(r *Run, prog *Program, a *Anchors, newParser, maxExprO
 				continue
 			}
 			fa, ok := ld.X.(*ssa.FieldAddr)
-			if !ok || fieldName(fa.X.Type(), fa.Field) != "maxExprCnt" {
+			if !ok || fieldName(fa.X.Type(), fa.Field) != budgetField {
 				continue
 			}
 			// the load comes after setOptions
@@ -510,4 +512,31 @@ func init() {
 		r.Explain = "Proof by non-interference: the budget travels unmodified from WithMaxExpressions to parser.maxExprCnt (passed iff non-zero; zero mapped to MaxUint64 after the options are applied); the counter has exactly one writer (+1, in parseExpr's entry block) and is read only by that increment and by one ordered comparison with the budget whose exceeded edge panics with errMaxExprCnt; that test dominates the whole dispatch; every engine method is entered only through parseExpr (parseRule only from parse / parseRuleRefExpr), so every step is counted. Since nothing else reads counter or budget, a limited run executes exactly the instruction sequence of the unlimited run until the test fires: with N the unlimited run's step count, n = 0 or n ≥ N gives the identical result, 0 < n < N panics at step n+1 and never later; the panic is recovered into the error (C10). `>` and `>=` both give a threshold."
 		r.Assume = append(r.Assume, "Go executes deterministically; parsing has no other input than the bytes and the options")
 	})
+}
+
+// budgetFieldOf: the budget's field by its role: the parser field the function returned by MaxExpressions stores
+// MaxExpressions' own parameter into.
+func budgetFieldOf(maxExprOpt *ssa.Function) string {
+	budgetField := "maxExprCnt"
+	for _, af := range maxExprOpt.AnonFuncs {
+		for _, b := range af.Blocks {
+			for _, ins := range b.Instrs {
+				st, ok := ins.(*ssa.Store)
+				if !ok {
+					continue
+				}
+				fa, isFA := st.Addr.(*ssa.FieldAddr)
+				fv, isFV := st.Val.(*ssa.FreeVar)
+				if ld, isLd := st.Val.(*ssa.UnOp); isLd && !isFV {
+					fv, isFV = ld.X.(*ssa.FreeVar) // captured by reference
+				}
+				if isFA && isFV && len(maxExprOpt.Params) == 1 && fv.Name() == maxExprOpt.Params[0].Name() {
+					if pt, ok := fa.X.Type().Underlying().(*types.Pointer); ok && namedIs(pt.Elem(), grammarPath, "parser") {
+						budgetField = fieldName(fa.X.Type(), fa.Field)
+					}
+				}
+			}
+		}
+	}
+	return budgetField
 }
